@@ -1571,7 +1571,17 @@ class Engine:
             except AttributeError:
                 raise OutOfReach(f"py attr {n.attr}")
         if obj.k == "opaque" and d is not None and ("attr:" + d) in self.c.externals:
-            return self.ext_result(self.c.externals["attr:" + d], d)
+            summ_ = self.c.externals["attr:" + d]
+            v_ = self.ext_result(summ_, d)
+            if summ_.get("record_as") and not self.spec_mode:
+                # a read of a mutable attribute of an unmodelled object, logged with the ghost facts the contract asks for
+                # (e.g. how many calls of some other external had happened by then)
+                self._hit_external(summ_)
+                rec_ = {"result": v_}
+                for k_, ex_ in summ_.get("record_ghost", {}).items():
+                    rec_[k_] = self.clause_val(ex_, self.st, self.st, {})
+                self.st.calls.setdefault(summ_["record_as"], []).append(rec_)
+            return v_
         if obj.k == "opaque":
             # attribute of an unmodelled object: an opaque pure read (same value for the same object and attribute)
             fn_ = z3.Function(f"attr_{n.attr}", opaque_sort(obj.cls), opaque_sort("Any"))
